@@ -7,3 +7,14 @@ for t, k in combos():
     hb = ['-DINT_HARNESS_BOUND=8388607LL'] if (t, k) in HEAVY else []
     HARNESSES.append(typed(H, 'rt_%s_%s' % (t, k), 'typed/roundtrip.c', t, k, tiers=tiers, defines=hb, bounds=('|v| < 2^23 (unconstrained-length UPER integer)' if hb else ''),
                            functions=['%s codec on %s' % (k, t)], inputs='abstract value of %s (all fields symbolic)' % t))
+
+# XER (BASIC and CANONICAL) round trip of the primitive types whose text needs no floating point
+XEX = r'_print|random_fill|_oer|_uper|_aper|_ber|_der' + CB
+for t in ('T_Bool', 'T_Null', 'T_Enum', 'T_Int8'):
+    HARNESSES.append(typed(H, 'rtxer_%s' % t, 'typed/xer_roundtrip.c', t, 'der', exclude=XEX, models=['printf'], tiers=(('quick', 'thorough') if t in ('T_Bool', 'T_Null') else ('thorough',)),
+                           defines=['-DSINK_MAX=48'], timeout=1800, maxdeepen=3000,
+                           functions=['xer_encode + xer_decode of %s' % t], inputs='value of %s, BASIC or CANONICAL layout' % t,
+                           bounds='text <= 40 characters'))
+HARNESSES.append(typed(H, 'rtxerstrict_T_Bool', 'typed/xer_roundtrip.c', 'T_Bool', 'der', exclude=XEX, models=['printf'], tiers=('thorough',),
+                       defines=['-DSINK_MAX=48', '-DSTRICT_CONSUME'], timeout=1800, maxdeepen=3000,
+                       functions=['xer_encode + xer_decode of T-Bool, exact consumption'], inputs='value, BASIC or CANONICAL layout'))
